@@ -72,6 +72,10 @@ func H_C12_rc4_overlap() {
 	vCheck(!vPanics(func() { c.XORKeyStream(buf[4:8], buf[0:4]) }), "rc4/overlap/adjacent-allowed")
 	vCheck(vPanics(func() { c.XORKeyStream(buf[1:5], buf[0:4]) }), "rc4/overlap/partial-rejected")
 	vCheck(vPanics(func() { c.XORKeyStream(buf[0:4], buf[2:6]) }), "rc4/overlap/partial-rejected-2")
+	// buffers that share exactly one byte at either end are overlapping too
+	vCheck(vPanics(func() { c.XORKeyStream(buf[3:7], buf[0:4]) }), "rc4/overlap/one-shared-byte-rejected")
+	vCheck(vPanics(func() { c.XORKeyStream(buf[0:4], buf[3:7]) }), "rc4/overlap/one-shared-byte-rejected-2")
+	vCheck(vPanics(func() { c.XORKeyStream(buf[0:4], buf[3:4]) }), "rc4/overlap/one-byte-source-inside-dst-rejected")
 	vCheck(vPanics(func() { c.XORKeyStream(other[:3], buf[:4]) }), "rc4/short-dst-rejected")
 	vCover("end")
 }
